@@ -14,7 +14,7 @@ CHECK = dict(
     parts=[dict(name='c11', src=['harness/c11_bintree.c'], lib=['bintree.c'], workers=16, prebuild=_gen,
                 objs=[('@BUILD@/c11_wrap.c', [], '@BUILD@/c11_wrap_stub.c',
                        'the BINTREE_DECLARE_INLINE_WRAPPERS instantiation (wrapper-against-plain-function differential)')],
-                deadline=dict(quick=240, thorough=1500))],
+                deadline=dict(quick=240, thorough=2700))],
     rule='five passes over the real bintree.c (not in librfn.a; the driver compiles it as an object of its own, so no harness '
          'identifier shares a translation unit with it and a static it may grow is part of the resettable library image). MAIN: every '
          'binary tree shape with 0..N nodes is produced by Catalan unranking (a hash set confirms the shapes are pairwise '
@@ -30,7 +30,7 @@ CHECK = dict(
          'is tolerated and counted); link of the parent NULL after free_left/right; deallocated nodes are filled with an odd '
          'pointer into an inaccessible page, so following a stale link faults and a store is seen. GUARD: small shapes, every '
          'node at the end of a page of its own that the deallocator revokes with mprotect, so any later access faults. DEEP: '
-         'a fixed family of ten degenerate / bushy shapes (left spine, right spine, zig-zag starting left / right, left comb, '
+         'a fixed family of 14 degenerate / bushy shapes (left spine, right spine, zig-zag starting left / right, one left step then a right spine and its mirror image, two spines under one root leaning inwards / outwards, left comb, '
          'right comb, zig-zag comb, heap-shaped full tree, left / right spine ending in a full tree) at every node count of a '
          'stated size list, all six operations at the root plus complete-after-j for j in {1, n/2, n-1}, six layouts, same '
          'oracles. LIST: bintree_iterate_list against the list e0..e_len and against bintree_traverse_list on left- and '
@@ -47,16 +47,16 @@ CHECK = dict(
               '8-aligned stride, nodes placed ascending (reversed placement <= 11 nodes, permuted <= 10); under-aligned stride '
               '(ascending and reversed) <= 10 nodes; <= 9 nodes every node as root of every operation, "j nodes then '
               'bintree_iterate_complete" for every j; <= 7 nodes a deallocator that frees another tree. GUARD: <= 9 nodes, the '
-              'three free variants at every node, ascending and reversed. DEEP: 10 shapes x node counts {13..130 (every one), '
-              '254..258, 510..514, 999..1001, 1022..1026, 65534..65538} x 6 layouts; operations that walk down from the root for '
+              'three free variants at every node, ascending and reversed. DEEP: 14 shapes x node counts {13..130 (every one), '
+              '254..258, 510..514, 999..1001, 1022..1026, 65534..65538} x 6 layouts (around 2^16: 3 layouts, complete-after-j on the first); operations that walk down from the root for '
               'every node (post-order, the free variants) only where sum of node depths <= 3 000 000, i.e. not on the deep '
               'members at 2^16 (in-/pre-order and the recursive traversals run there). LIST: lengths {1..130, 254..258, 510..514, '
               '999..1001, 1022..1026} both directions, 65534..65538 right-leaning only (the left-leaning iterator is quadratic). '
               'WRAP: all shapes <= 6 nodes, every node',
         thorough='MAIN: ALL shapes with 0..15 nodes (13 402 697 shapes), same operations; reversed placement <= 14, permuted <= 13, under-aligned '
                  '<= 13 nodes; every node as root, complete-after-j and GUARD <= 12 nodes. DEEP: as quick, and post-order iteration '
-                 'and bintree_free also on the deep members at 65534..65538 nodes (first layout only). LIST: as quick plus '
-                 'left-leaning 65534..65538. WRAP: <= 8 nodes'),
+                 'and bintree_free also on the deep members at 65535..65537 nodes (first layout only). LIST: as quick plus '
+                 'left-leaning 65535..65537 (ascending allocation). WRAP: <= 8 nodes'),
     assumptions=[
         'scope: well-formed trees (no sharing, no cycles), nodes at least 2-byte aligned (an 8-aligned and a 2-mod-4 '
         'placement are enumerated), one iterator at a time, no mutation by the caller during iteration other '
@@ -91,12 +91,12 @@ CHECK.update(
                'at 8-aligned and 2-mod-4 addresses; order is compared with an independent traversal and with '
                'librfn\'s own recursive traversals, every link is compared before/after, and the '
                'deallocator log is checked for exactly-once, children-first and no access after deallocation (page '
-               'revoked per node for shapes up to 9 (12) nodes). Ten degenerate and bushy shapes are run with the same oracles at '
+               'revoked per node for shapes up to 9 (12) nodes). Fourteen degenerate and bushy shapes are run with the same oracles at '
                'every node count 13..130 and on both sides of 2^8, 2^9, 1000, 2^10 and 2^16. List iterator versus '
                'bintree_traverse_list on left/right spines of every length 1..130 and around 2^8, 2^9, 1000, 2^10, 2^16. The '
                'typed wrapper macro is instantiated and compared with the plain functions. Repeated on gcc -Os, -O0, -DNDEBUG '
                '(and clang). Exhaustive for the stated bounds, nothing sampled.',
-    level_note='Bounded: between the exhaustive node bound and the deep family only the ten family shapes are examined, and above '
+    level_note='Bounded: between the exhaustive node bound and the deep family only the 14 family shapes are examined, and above '
                '65 538 nodes nothing. Quadratic operations at 2^16 nodes only in the thorough tier. Read-after-dealloc is exact '
                'only up to the guard-pass bound. Trusted: the shape unranking (cross-checked by the distinct-shape count == '
                'Catalan sum), the family generators and the 25-line explicit-stack reference traversals.',
